@@ -183,11 +183,21 @@ def interactive_world(r):
                               (T['Box'], 0, 0, (T['Key'], 0, col, None)), (T['Box'], 0, 0, gen.FLOOR), (T['Box'], 0, 0, (T['Door'], r.choice([1, 2]), col, None)), gen.WALL, (T['MovingObstacle'], 0, 0, None),
                               (T['Telepod'], 0, col, None), (T['Exit'], 0, 0, None), (T['Exit'], 0, r.choice(gen.COLORS[1:]), None), (T['Beacon'], 0, r.choice(gen.COLORS[1:]), None)]
     g = tuple(tuple(r.choice(pool) for _ in range(w)) for _ in range(h))
+    if r.random() < 0.3:
+        # telepods come in groups of one colour (a single one never teleports): two or three of them, among doors / boxes / keys
+        cells = [(y, x) for y in range(h) for x in range(w)]
+        r.shuffle(cells)
+        for c in cells[:r.choice([2, 2, 3])]:
+            g = gen.set_cell(g, c, (T['Telepod'], 0, col, None))
     free = [(y, x) for y in range(h) for x in range(w) if g[y][x][0] in (T['Floor'], T['Exit'], T['Telepod']) or g[y][x] == (T['Door'], 0, col, None)]
     if not free:
         g = gen.set_cell(g, (0, 0), gen.FLOOR)
         free = [(0, 0)]
     p = r.choice(free)
+    pods = [c for c in free if g[c[0]][c[1]][0] == T['Telepod']]
+    near = [c for c in free if any((c[0] + d[0], c[1] + d[1]) in pods for d in _DIRS.values())]
+    if (pods or near) and r.random() < 0.5:
+        p = r.choice(pods + near)      # on a telepod, or one move away from one
     held = r.choice([gen.NONE, gen.NONE, (T['Key'], 0, col, None), (T['Key'], 0, r.choice(gen.COLORS[1:]), None)])
     o = r.randrange(4)
     facing = [d for d in range(4) if 0 <= p[0] + _DIRS[d][0] < h and 0 <= p[1] + _DIRS[d][1] < w
@@ -210,7 +220,7 @@ def run_histories(ctx, n, step_oracle, length=(3, 10)):
     reqs, metas = [], []
     for _ in range(n):
         cs = interactive_world(r)
-        s = wire.mkstate(cs)
+        s = wire.mkstate(cs, share=r.random() < 0.3)      # one prototype object in several cells, as often as not
         hist = []
         for _k in range(r.randint(*length)):
             act = r.choice([0, 0, 0, 0, 6, 6, 6, 7, 7, 1, 2, 3, 4, 5])
@@ -220,6 +230,9 @@ def run_histories(ctx, n, step_oracle, length=(3, 10)):
                 from gym_gridverse.geometry import Position
                 gh, gw = s.grid.shape.height, s.grid.shape.width
                 pa, pb = (r.randrange(gh), r.randrange(gw)), (r.randrange(gh), r.randrange(gw))
+                special = [(yy, xx) for yy in range(gh) for xx in range(gw) if type(s.grid[Position(yy, xx)]).__name__ in ('Telepod', 'Door', 'Box', 'MovingObstacle')]
+                if special and r.random() < 0.6:
+                    pa = r.choice(special)       # relocate / replace something the dynamics care about
                 if s.agent.position.yx not in (pa, pb):
                     if r.random() < 0.6:
                         s.grid.swap(Position(*pa), Position(*pb))
